@@ -1,7 +1,7 @@
 """C25 - the template cache serves the current template source.
 
 Case:
-  {"loader": "dict" | "func" | "func_utd" | "fs", "cache": 0 | 1 | 2 | -1, "auto_reload": bool,
+  {"loader": "dict" | "func" | "func_utd" | "fs" | "pkg", "cache": 0 | 1 | 2 | -1, "auto_reload": bool,
    "names": 2 | 3, "ops": [["get", "a"], ["select", "b", "a"], ["put", "a", 1], ["del", "a"], ["swap"]]}
 
 Two loaders of the given kind (L0, L1) with separate stores; the environment starts on L0.
@@ -10,7 +10,9 @@ L0 initially holds every name but the last at version 0, L1 holds every name at 
 the same version, i.e. an equal but newly created source / a rewritten file -, add when absent),
 ``put`` may carry a 4th element "earlier": the modification stamp (the file mtime for the FileSystemLoader) then
 moves *backwards* to a value older than every stamp used so far (backup restore, timestamp-preserving deploy);
-the default moves it forwards.  A stamp never repeats.  ``del`` removes it, ``swap`` assigns the other loader to ``env.loader``.  Every version renders a text
+the default moves it forwards.  A stamp never repeats.  ``["auto"]`` toggles ``env.auto_reload`` (the configuration gives the initial value; what counts is the value
+at fetch time).  "pkg" is a PackageLoader on a directory package created under /verif/.work and put on sys.path
+(mtimes forced like for "fs").  ``del`` removes it, ``swap`` assigns the other loader to ``env.loader``.  Every version renders a text
 naming loader, name and version, so the rendered output identifies the source that was compiled - except
 version 2, which is the EMPTY source (renders ''; an existing empty template is not a missing one: the
 observation kinds "rendered" and "notfound" are compared, not only the text).
@@ -31,17 +33,18 @@ from vt import core
 PID = "C25"
 LEVEL = "exploration"
 RULE = (
-    "exhaustive histories ending in a fetch over {get(n), select([n, m]), put(n, v) (FileSystemLoader: with a later and with an earlier mtime), del(n), swap loader} for 2 names x 2 source versions (a non-empty one and the EMPTY source; two non-empty ones at shorter lengths; all three in thorough) "
+    "exhaustive histories ending in a fetch over {get(n), select([n, m]), put(n, v) (FileSystemLoader: with a later and with an earlier mtime), del(n), swap loader, toggle env.auto_reload} for 2 names x 2 source versions (a non-empty one and the EMPTY source; two non-empty ones at shorter lengths; all three in thorough) "
     "(length <= 4 quick / <= 5 thorough, plus length 6 on cache sizes 1 and 2: full alphabet on DictLoader, get/put/del only on the other loaders) and 3 names x 2 versions (length <= 3, plus length 4 on DictLoader with "
     "cache size 2, quick / <= 4, plus length 5 on DictLoader with cache size 2, thorough) "
     "x cache sizes {0, 1, 2, -1} x auto_reload {on, off} x {DictLoader, FunctionLoader returning str, FunctionLoader with an "
-    "up-to-date callback, FileSystemLoader with mtimes forced from a counter}; plus Hypothesis RuleBasedStateMachine histories of "
+    "up-to-date callback, FileSystemLoader with mtimes forced from a counter, PackageLoader on a directory package (shorter histories)}; plus Hypothesis RuleBasedStateMachine histories of "
     "up to 100 steps over 3 names x 3 versions.  Non-trivial = the history fetches a key again after its source was changed or "
     "deleted, after it was evicted, or with a size-0 cache; distinct = distinct case."
 )
 ASSUMPTIONS = [
     "reference model: LRU keyed by (loader, name); a cache hit and a (re)load make the key most recently used; a load into a full cache evicts the least recently used key",
-    "staleness per loader as documented/implemented by its up-to-date check: DictLoader compares the source text, FileSystemLoader the mtime, "
+    "the up-to-date check applies iff env.auto_reload is true at the time of the fetch (the attribute may be assigned after templates were cached)",
+    "staleness per loader as documented/implemented by its up-to-date check: DictLoader compares the source text, FileSystemLoader and PackageLoader (directory package) the mtime, "
     "FunctionLoader whatever callback the load function returns (here: a modification stamp); no callback = never stale",
     "after a failed reload (source deleted, cached entry stale) the model admits three cache states (entry kept / kept and made most recent / dropped)",
     "a compilation is counted as one call of Environment._generate; no bytecode cache is configured",
@@ -50,16 +53,54 @@ ASSUMPTIONS = [
 ]
 
 NAMES = "abc"
-KINDS = ["dict", "func", "func_utd", "fs"]
+KINDS = ["dict", "func", "func_utd", "fs", "pkg"]
+DISK = ("fs", "pkg")
 MEM = ["dict", "func", "func_utd"]
 CACHES = [0, 1, 2, -1]
-HAS_UTD = {"dict": True, "func": False, "func_utd": True, "fs": True}
+HAS_UTD = {"dict": True, "func": False, "func_utd": True, "fs": True, "pkg": True}
 BASE_MTIME = 1_500_000_000
 _keep_dirs = [False]  # set by run_shard: the (empty) per-process directories survive between cases of one shard
 
 
+def _workdir():
+    return os.path.join(core.VERIF, ".work", "c25-%d" % os.getpid())
+
+
+def _pkg_name(li):
+    return "vtc25pkg%d_%d" % (li, os.getpid())
+
+
 def remove_workdir():
-    shutil.rmtree(os.path.join(core.VERIF, ".work", "c25-%d" % os.getpid()), ignore_errors=True)
+    import sys
+
+    root = os.path.join(_workdir(), "pkgs")
+    while root in sys.path:
+        sys.path.remove(root)
+    for li in (0, 1):
+        sys.modules.pop(_pkg_name(li), None)
+    shutil.rmtree(_workdir(), ignore_errors=True)
+
+
+def _ensure_packages():
+    """Two directory packages with a templates/ directory each, importable through sys.path."""
+    import importlib
+    import sys
+
+    root = os.path.join(_workdir(), "pkgs")
+    created = False
+    for li in (0, 1):
+        d = os.path.join(root, _pkg_name(li), "templates")
+        if not os.path.isdir(d):
+            os.makedirs(d)
+            with open(os.path.join(root, _pkg_name(li), "__init__.py"), "w") as f:
+                f.write("")
+            created = True
+    if root not in sys.path:
+        sys.path.insert(0, root)
+        created = True
+    if created:
+        importlib.invalidate_caches()
+    return root
 
 
 EMPTY = 2  # version number of the empty template source
@@ -128,12 +169,13 @@ def model_fetch(state, key, cur, kind, cap, auto_reload):
 class Run:
     def __init__(self, cfg):
         import jinja2
-        from jinja2 import DictLoader, Environment, FileSystemLoader, FunctionLoader
+        from jinja2 import DictLoader, Environment, FileSystemLoader, FunctionLoader, PackageLoader
 
         kind, cap, names = cfg["loader"], cfg["cache"], cfg["names"]
         if kind not in KINDS or cap not in CACHES or names not in (2, 3):
             raise core.HarnessError("configuration outside the decided domain: %r" % (cfg,))
         self.kind, self.cap, self.auto = kind, cap, bool(cfg["auto_reload"])
+        self.auto0 = self.auto
         self.names = NAMES[:names]
         self.TemplateNotFound = jinja2.TemplateNotFound
         self.TemplatesNotFound = jinja2.TemplatesNotFound
@@ -153,18 +195,24 @@ class Run:
 
         self.compilations = 0
         try:
-            if kind == "fs":
-                self.base = os.path.join(core.VERIF, ".work", "c25-%d" % os.getpid())
-                self.dir = self.base
+            if kind in DISK:
+                self.dir = _workdir()
                 self.materialized = [False, False]
-                for sub in ("L0", "L1"):
-                    d = os.path.join(self.dir, sub)
+                if kind == "fs":
+                    self.tdirs = [os.path.join(self.dir, "L0"), os.path.join(self.dir, "L1")]
+                else:
+                    root = _ensure_packages()
+                    self.tdirs = [os.path.join(root, _pkg_name(li), "templates") for li in (0, 1)]
+                for d in self.tdirs:
                     if os.path.isdir(d):
                         for f in os.listdir(d):
                             os.remove(os.path.join(d, f))
                     else:
                         os.makedirs(d)
-                self.loaders = [FileSystemLoader(os.path.join(self.dir, "L0")), FileSystemLoader(os.path.join(self.dir, "L1"))]
+                if kind == "fs":
+                    self.loaders = [FileSystemLoader(d) for d in self.tdirs]
+                else:
+                    self.loaders = [PackageLoader(_pkg_name(li)) for li in (0, 1)]
             elif kind == "dict":
                 self.maps = [{}, {}]
                 self.loaders = [DictLoader(self.maps[0]), DictLoader(self.maps[1])]
@@ -174,7 +222,7 @@ class Run:
                 self._put(0, n, 0)
             for n in self.names:
                 self._put(1, n, 1)
-            if kind == "fs":
+            if kind in DISK:
                 self._materialize(0)
             self.env = CountingEnvironment(loader=self.loaders[0], cache_size=cap, auto_reload=self.auto)
         except BaseException:
@@ -214,11 +262,11 @@ class Run:
         src = "".join(list(source_text(li, name, version)))  # a new string object every time
         if self.kind == "dict":
             self.maps[li][name] = src
-        elif self.kind == "fs" and self.materialized[li]:
+        elif self.kind in DISK and self.materialized[li]:
             self._write(li, name, src, stamp)
 
     def _write(self, li, name, src, stamp):
-        path = os.path.join(self.dir, "L%d" % li, name)
+        path = os.path.join(self.tdirs[li], name)
         with open(path, "w", encoding="utf-8") as f:
             f.write(src)
         t = (BASE_MTIME + stamp) * 10**9
@@ -237,16 +285,15 @@ class Run:
             return
         if self.kind == "dict":
             del self.maps[li][name]
-        elif self.kind == "fs" and self.materialized[li]:
-            os.remove(os.path.join(self.dir, "L%d" % li, name))
+        elif self.kind in DISK and self.materialized[li]:
+            os.remove(os.path.join(self.tdirs[li], name))
 
     def close(self):
         if self.closed:
             return
         self.closed = True
         if self.dir is not None:
-            for sub in ("L0", "L1"):
-                d = os.path.join(self.dir, sub)
+            for d in getattr(self, "tdirs", ()):
                 if os.path.isdir(d):
                     for f in os.listdir(d):
                         os.remove(os.path.join(d, f))
@@ -288,10 +335,14 @@ class Run:
             self._del(self.cur, op[1])
         elif name == "swap":
             self.cur = 1 - self.cur
-            if self.kind == "fs":
+            if self.kind in DISK:
                 self._materialize(self.cur)
             self.env.loader = self.loaders[self.cur]
             self.labels.add("swap")
+        elif name == "auto":
+            self.auto = not self.auto
+            self.env.auto_reload = self.auto
+            self.labels.add("toggle_auto_reload")
         elif name in ("get", "select"):
             self._fetch(op)
         else:
@@ -384,7 +435,7 @@ class Run:
         self.states = admissible
 
     def outcome(self):
-        labels = ["loader=" + self.kind, "cache=%d" % self.cap, "auto_reload=%s" % ("on" if self.auto else "off"), "names=%d" % len(self.names)]
+        labels = ["loader=" + self.kind, "cache=%d" % self.cap, "auto_reload=%s" % ("on" if self.auto0 else "off"), "names=%d" % len(self.names)]
         return core.Outcome(self.nontrivial, labels + sorted(self.labels))
 
 
@@ -410,6 +461,7 @@ def alphabet(nnames, versions, full=True, earlier=False):
     other = [["put", n, v] for n in names for v in versions] + [["del", n] for n in names]
     if earlier:
         other += [["put", n, v, "earlier"] for n in names for v in versions]
+    other.append(["auto"])
     if full:
         other.append(["swap"])
     return fetch, other
@@ -494,6 +546,10 @@ def _run_machine(ctx, rec, max_examples, steps, tag):
         def swap(self):
             self._do(["swap"])
 
+        @rule()
+        def toggle(self):
+            self._do(["auto"])
+
         def teardown(self):
             if self.run_ is not None:
                 self.run_.close()
@@ -548,6 +604,8 @@ def all_enumerated(tier):
             histories(2, V01, range(1, 4)),
             histories(3, V0E, range(1, 4), kinds=MEM), histories(3, V0E, range(1, 4), kinds=["fs"], earlier=True),
             histories(3, V01, [4], kinds=["dict"], caches=[2]),
+            histories(2, V0E, range(1, 4), kinds=["pkg"], earlier=True), histories(3, V0E, range(1, 4), kinds=["pkg"]),
+            histories(2, V0E, [4], kinds=["pkg"], full=False),
         )
     return itertools.chain(
         histories(2, V01E, range(1, 5), kinds=MEM),
@@ -563,6 +621,9 @@ def all_enumerated(tier):
         histories(2, V0E, [6], kinds=["func", "func_utd"], caches=[1, 2], full=False),
         histories(2, V0E, [5], kinds=["fs"], caches=[1, 2], full=False, earlier=True),
         histories(2, V0E, [6], kinds=["fs"], caches=[1, 2], full=False),
+        histories(2, V0E, range(1, 5), kinds=["pkg"], earlier=True),
+        histories(3, V0E, range(1, 4), kinds=["pkg"]),
+        histories(2, V0E, [5], kinds=["pkg"], caches=[1, 2], full=False),
     )
 
 
@@ -584,7 +645,7 @@ def floors(total, tier):
         return None
     lab = total.labels
     need = {"evict": 500, "stale_served": 500, "notfound": 500, "ambiguous_state": 100, "swap": 500, "select_fallback": 200,
-            "rewrite_same": 200, "stamp_earlier": 500, "empty_source": 1000, "hit": 500, "compiled": 500}
+            "rewrite_same": 200, "stamp_earlier": 500, "empty_source": 1000, "toggle_auto_reload": 1000, "hit": 500, "compiled": 500}
     for k in KINDS:
         need["loader=" + k] = 1000
     low = ["%s=%d (< %d)" % (k, lab.get(k, 0), v) for k, v in need.items() if lab.get(k, 0) < v]
